@@ -31,7 +31,11 @@ pub struct SeqOut {
 
 fn build_name() -> &'static str {
     if cfg!(feature = "small") {
-        "small"
+        if cfg!(debug_assertions) {
+            "small"
+        } else {
+            "rel (small, debug assertions off)"
+        }
     } else {
         "ship"
     }
